@@ -6,6 +6,8 @@
 //!   E3  whatever W held before the call is bit-for-bit unchanged (on Ok and on Err)
 //!   E4  a writer with exactly n bytes of room is neither overrun (panic) nor under-filled on Ok
 //! Decode side, per receive on slice s:
+//!   D0  decode(s) panics ⇒ decode_mut and decode_full panic too (same outcome; the panic itself is
+//!       the required method's business and is not judged)
 //!   D1  decode(s)=Ok((p,r)) ⇒ r is a suffix of s by address; decode_mut returns an equal p and
 //!       leaves the cursor == r; decode_full(s) is Ok(p) if r is empty, else exactly TrailingBytesError
 //!   D2  decode(s)=Err(e) ⇒ decode_mut returns e with the cursor untouched; decode_full returns e
@@ -377,9 +379,17 @@ fn recv_laws<T: Packet + Debug + Clone + PartialEq + Default>(s: &[u8], depth: u
         Err(e) => {
             // not judged — but the provided methods are still exercised on this input, as a caller
             // would: whatever they do around a panicking decode becomes part of the thread's history
+            // the provided methods are defined in terms of decode: on an input on which decode panics they
+            // do the same (D0); turning the panic into a value would make decode_full(b) != decode(b)
             let mut cur: &[u8] = s;
-            let _ = catch_unwind(AssertUnwindSafe(|| T::decode_mut(&mut cur).is_ok()));
-            let _ = catch_unwind(AssertUnwindSafe(|| T::decode_full(s).is_ok()));
+            let m = catch_unwind(AssertUnwindSafe(|| T::decode_mut(&mut cur).map(|_| ()).map_err(|e| format!("{e:?}"))));
+            let f = catch_unwind(AssertUnwindSafe(|| T::decode_full(s).map(|_| ()).map_err(|e| format!("{e:?}"))));
+            if let Ok(r) = &m {
+                return rviol("D0", format!("decode panics ({}) but decode_mut returned {:?}; input {}", panic_msg(e), r, hexs(s)));
+            }
+            if let Ok(r) = &f {
+                return rviol("D0", format!("decode panics ({}) but decode_full returned {:?}; input {}", panic_msg(e), r, hexs(s)));
+            }
             return RecvOutcome::RequiredPanic(format!("decode: {}", panic_msg(e)));
         }
     };
